@@ -102,8 +102,10 @@ PROPS = {
                           thm("C13_initialism_any_case", "P_C13"), thm("C13_unnamed_rule", "P_C13"),
                           thm("C13_user_name_verbatim", "P_C13"), thm("C13_user_name_body_idents", "P_C13"), thm("C13_kept_partial", "P_C13")],
                 oracle=O.o_c13, known=["transient_qualifier_rename"]),
-    "C14": dict(kind="gen", files=["Sites_Proofs.v", "gen/Sites.v"],
-                theorems=[thm("C14_map_range_sites", "Sites_Proofs")], oracle=O.o_c14,
+    "C14": dict(kind="gen", files=["Sites_Proofs.v", "gen/Sites.v", "P_C14.v", "Registry_Proofs.v"],
+                theorems=[thm("C14_map_range_sites", "Sites_Proofs"), thm("C14_imports_order", "P_C14"),
+                          thm("C14_search_order_free", "P_C14"), thm("C14_renames_refuted", "P_C14")],
+                oracle=O.o_c14,
                 known=["rename_order_dependent"]),
     "C15": dict(kind="cli", files=["Cli.v", "Cli_Proofs.v", "gen/Skeletons.v", "SkeletonPins.v"],
                 theorems=[thm("C15_rm", "Cli_Proofs"), thm("pin_main_run", "Cli_Proofs"),
@@ -404,6 +406,27 @@ def cli_oracle(pid, o, groups):
 def run_cli(ctx, spec, obligations, listed):
     st = stage_cli.run(ctx.tools, ctx.seed, ctx.tier)
     corr_breaks, failures = [], []
+    known_hits, notes, extra_eval = {}, [], 0
+    if ctx.pid == "C15":
+        # regeneration over moq's own output, on the generator stage's in-place cases, against
+        # the model's own prediction (L2Check.regen_stable)
+        gs = stage_gen.run(ctx.tools, ctx.seed, ctx.tier)
+        listed_families = set(f["family"] for f in listed)
+        for cr in gs["cases"]:
+            if not cr.get("regen") or (cr.get("facts") or {}).get("typecheck") != "ok":
+                continue      # regenerating over output that does not compile is C01's business
+            extra_eval += 1
+            fails = O.o_c15_regen(cr)
+            predicted = set(x for x in cr["families"] if x.startswith("regen_unstable"))
+            bad = [f for f in fails if f[1] not in predicted]
+            if bad:
+                failures.append(dict(case=cr, fails=bad, families=sorted(cr["families"])))
+            elif fails and "regen_not_fixed_point" in listed_families:
+                known_hits.setdefault("regen_not_fixed_point", []).append(cr["case"]["id"])
+            elif fails:
+                failures.append(dict(case=cr, fails=fails, families=sorted(cr["families"])))
+            for fam in predicted - set(f[1] for f in fails):
+                notes.append("%s: the model predicts %s, the implementation was stable" % (cr["case"]["id"], fam))
     if st["errors"]:
         corr_breaks.append(dict(what="Coq evaluation of the CLI scenarios failed", detail=st["errors"][0][-500:]))
     groups = {}
@@ -428,7 +451,8 @@ def run_cli(ctx, spec, obligations, listed):
     pseudo["cases"] = [dict(case=dict(id=o["name"], args=o["args"], pkg="", stub=False, skip=False, resets=False),
                             kind="rc=%d" % o["rc"], verdict="ok" if o["model"] == o["observed"] else "DIFF",
                             families=[]) for o in st["obs"]]
-    return finish(ctx, spec, obligations, corr_breaks, failures, {}, listed, [], pseudo, len(st["obs"]), len(distinct),
+    return finish(ctx, spec, obligations, corr_breaks, failures, known_hits, listed, notes, pseudo,
+                  len(st["obs"]) + extra_eval, len(distinct),
                   rule="scenarios = prior state of the -out path (absent, own output, output for an older interface, "
                        "garbage) x -rm x {stdout, file in the package, file before the sources, file in missing "
                        "directories} x failure stage (arguments, load, lookup of the k-th name, non-interface, "
